@@ -192,7 +192,9 @@ fn run_c06<A: Flavor>(case: &CaseC06) -> CaseReport {
         let interesting: Vec<usize> = (0..live_log.len())
             .filter(|k| {
                 let d = &live_log[*k].2;
-                (d.starts_with("Drop") || d.starts_with("Dealloc") || d.starts_with("Discard") || d.starts_with("Alloc") || d.starts_with("Fill")) && snaps.iter().filter(|s| s.op == *k && s.step != u32::MAX).count() >= 4
+                let steps = snaps.iter().filter(|s| s.op == *k && s.step != u32::MAX).count();
+                ((d.starts_with("Drop") || d.starts_with("Dealloc") || d.starts_with("Discard") || d.starts_with("Alloc") || d.starts_with("Fill")) && steps >= 4)
+                    || ((d.starts_with("Clear") || d.starts_with("Rewind")) && steps >= 2)
             })
             .collect();
         let mut must: Vec<usize> = Vec::new();
@@ -269,6 +271,12 @@ impl Prop for C06 {
         p.w_discard = 3;
         p.w_minseg = 2;
         p.w_clone = 1;
+        // "any operation": clear, rewind and increase_discarded are operations of a writable arena too (their
+        // contracts - no live handle above the new cursor - are kept by the interpreter, and a range released by the
+        // interrupted operation is exempt from the live-bytes clause anyway)
+        p.w_clear = 2;
+        p.w_rewind = 2;
+        p.w_incdisc = 2;
         p.owned_pct = 15;
         p.flavors = &[Fl::Sync, Fl::Sync, Fl::Sync, Fl::Unsync];
         let mut pp = Profile::base();
@@ -300,7 +308,7 @@ impl Prop for C06 {
         scale(tier, 24_000, 400_000)
     }
     fn rule() -> &'static str {
-        "a generated history (C05-style, unified layout; Vec backend for speed, anon and file backends to confirm equivalence) is run once while the verif hook copies memory() before every atomic access / arena zeroing of every operation (sync) or at every operation boundary (unsync); each copy is byte for byte what a MAP_SHARED file would hold if the process were killed there. quick: <= 32 crash points per history (always every step of one free-list-touching operation, the rest hash-sampled by a generated value), thorough: all. For each: write the copy to a fresh file, map_mut with the original options: must open, data_offset <= allocated <= capacity, every range returned before the crash and not released before it (the handle released / allocated by the interrupted operation is exempt) holds its bytes and lies below the cursor; then a generated post-crash history (fill, free, refill, discard_freelist) runs on the reopened arena with those ranges in the shadow map (C01 disjointness = never handed out again) with a termination budget per operation (2000 consecutive atomic accesses that change nothing: a single thread re-reading unchanged words can never leave its loop). Non-trivial = a crash point strictly inside an operation, in a history that used the free list. evaluations counts histories; counters.crash_points_evaluated counts recoveries"
+        "a generated history (C05-style incl. clear, rewind and increase_discarded, unified layout; Vec backend for speed, anon and file backends to confirm equivalence) is run once while the verif hook copies memory() before every atomic access / arena zeroing of every operation (sync) or at every operation boundary (unsync); each copy is byte for byte what a MAP_SHARED file would hold if the process were killed there. quick: <= 32 crash points per history (always every step of one free-list-touching operation, the rest hash-sampled by a generated value), thorough: all. For each: write the copy to a fresh file, map_mut with the original options: must open, data_offset <= allocated <= capacity, every range returned before the crash and not released before it (the handle released / allocated by the interrupted operation is exempt) holds its bytes and lies below the cursor; then a generated post-crash history (fill, free, refill, discard_freelist) runs on the reopened arena with those ranges in the shadow map (C01 disjointness = never handed out again) with a termination budget per operation (2000 consecutive atomic accesses that change nothing: a single thread re-reading unchanged words can never leave its loop). Non-trivial = a crash point strictly inside an operation, in a history that used the free list. evaluations counts histories; counters.crash_points_evaluated counts recoveries"
     }
     fn assumptions() -> Vec<&'static str> {
         vec![
